@@ -189,7 +189,8 @@ func checkC18(c *Ctx) error {
 		}
 		defer os.RemoveAll(b)
 		rt := Tree{}
-		for _, s := range [][]string{{}, {"crs"}, {"crs", "sub", "inner"}, {"crs", "rules"}, {"crs", "sub"}, {"crs", "sub", "inner", "deep", "er"}, {"other"}, {"other", "x"}} {
+		for _, s := range [][]string{{}, {"crs"}, {"crs", "sub", "inner"}, {"crs", "rules"}, {"crs", "sub"}, {"crs", "sub", "inner", "deep", "er"}, {"other"}, {"other", "x"},
+			{"crs", "regex-assembly", "fixtures", "inner", "rules"}, {"crs", "regex-assembly", "include"}, {"regex-assembly-old", "crs", "util", "a"}} {
 			rt[filepath.Join(append([]string{"."}, s...)...)+"/"] = ""
 		}
 		for _, l := range rc.Layout {
@@ -231,7 +232,7 @@ func checkC18(c *Ctx) error {
 	c.Cov["traces_validated_against_impl"] = len(args) + len(roots)
 	c.Cov["cli_executions"] = cli
 	c.Cov["exhaustive"] = c.Tier == "thorough"
-	c.Cov["rule"] = "argument strings assembled from 3 x 5 x 15 x 6 x 3 pieces (junk, digits of other lengths, chain offsets 0,1,7,255,256,300,65536,2^64, empty, negative, leading zeros, wrong case, extensions, junk); every string is resolved by the spec (Args!Resolve) and by the real generate (marker literal per file shows which file was read; decoy files exist for wrapped offsets 256->0 and 300->44), generate from stdin, and update on a chain of 9 links (shows the offset used); 64 root cases (4 layouts incl. nested roots x 8 start directories x -d or cwd); non-trivial = accepted argument or argument with a chain part"
+	c.Cov["rule"] = "argument strings assembled from 3 x 5 x 15 x 6 x 3 pieces (junk, digits of other lengths, chain offsets 0,1,7,255,256,300,65536,2^64, empty, negative, leading zeros, wrong case, extensions, junk); every string is resolved by the spec (Args!Resolve) and by the real generate (marker literal per file shows which file was read; decoy files exist for wrapped offsets 256->0 and 300->44), generate from stdin, and update on a chain of 9 links (shows the offset used); 182 root cases (7 layouts incl. nested roots, a root below another root's regex-assembly directory and below a directory named regex-assembly-old x 13 start directories x -d or cwd); non-trivial = accepted argument or argument with a chain part"
 	c.Summary = fmt.Sprintf("args=%d roots=%d cli=%d", len(args), len(roots), cli)
 	return nil
 }
